@@ -116,11 +116,41 @@ let check_m lhs rhs =
     if ok_dir sent deliv then None else Some "monitor ok_dir rejects the logs of this direction"
   | _ -> Some "unparsable M line"
 
+(* K lines: retry-limit wiring. The model end A (limit k) sends one single-block message to a peer that
+   NAKs every block (its transmissions arrive garbled) or never grants the line (its ENQs are lost);
+   count the ENQs and blocks A writes until it gives up. *)
+let check_k lhs rhs =
+  match split_ws lhs with
+  | ["K"; scenario; k] ->
+    let s = ref (sys0 (nat_of_int (int_of_string k)) O [(S O, S O)] []) in
+    let enqs = ref 0 and blocks = ref 0 in
+    let stepx l = match step !s l with Some s' -> s := s'; true | None -> false in
+    ignore (stepx (LStart A));
+    let fuel = ref 400 in
+    while !fuel > 0 && (get !s A).e_ph <> Down && (get !s A).e_done = [] do
+      decr fuel;
+      (match (get !s A).e_out, (get !s B).e_out with
+       | o :: _, _ ->
+         (match o with OCh ENQ -> incr enqs | OBlk _ -> incr blocks | _ -> ());
+         let f = (match o, scenario with
+             | OCh ENQ, "never-grant" -> Drop
+             | OBlk _, _ -> Garble
+             | _ -> Deliver) in
+         ignore (stepx (LLine (A, f)))
+       | [], _ :: _ -> ignore (stepx (LLine (B, Deliver)))
+       | [], [] -> if not (stepx (LTimeout A)) then ignore (stepx (LTimeout B)))
+    done;
+    let model = Printf.sprintf "%d %d %s" !enqs !blocks (if (get !s A).e_ph = Down then "1" else "0") in
+    let obs = String.concat " " (split_ws rhs) in
+    if model = obs then None else Some (Printf.sprintf "retry-limit wiring model=[%s] impl=[%s]" model obs)
+  | _ -> Some "unparsable K line"
+
 let check _ln line =
   let (lhs, rhs) = split_bar line in
   match split_ws lhs with
   | "U" :: _ -> check_u lhs rhs
   | "M" :: _ -> check_m lhs rhs
+  | "K" :: _ -> check_k lhs rhs
   | _ -> Some "unparsable case line"
 
 let () = run_cases Sys.argv.(1) check
